@@ -127,28 +127,18 @@ Lemma decode_dp v : let x := FPNum_from_ieee754 fmt_dp v in
   xeq (xval x) (ieee_value 11 52 v) /\ (f_s x <? 0) = ieee_neg 11 52 v /\ wf x.
 Proof. destruct fmts_std as (_ & _ & ->). apply decode_exact; first [lia | left; reflexivity]. Qed.
 
-(* half precision as the code is today (subnormal exponent -16): exact except on non-zero subnormals ... *)
-Lemma decode_hp_partial v : fld_e 5 10 v <> 0 \/ fld_m 5 10 v = 0 ->
-  let x := FPNum_from_ieee754 fmt_hp v in
+(* half precision: all 2^16 patterns (subnormal exponent -14 since 8541cf4) *)
+Lemma decode_hp v : let x := FPNum_from_ieee754 fmt_hp v in
   xeq (xval x) (ieee_value 5 10 v) /\ (f_s x <? 0) = ieee_neg 5 10 v /\ wf x.
-Proof. intros G. unfold fmt_hp. destruct fmts_std as (-> & _ & _). apply decode_exact; first [lia | right; exact G]. Qed.
+Proof. unfold fmt_hp. destruct fmts_std as (-> & _ & _). apply decode_exact; first [lia | left; reflexivity]. Qed.
 
-(* ... where EVERY pattern decodes to a quarter of its value (finding #21) *)
-Lemma decode_hp_subnormal_quarter v : fld_e 5 10 v = 0 ->
-  let x := FPNum_from_ieee754 fmt_hp v in
+(* HISTORY (finding #21, repaired by 8541cf4): with exponent -16 EVERY subnormal half pattern decoded to a quarter of its value *)
+Lemma decode_hp_subnormal_quarter_before v : fld_e 5 10 v = 0 ->
+  let x := FPNum_from_ieee754 fmt_hp_before_8541cf4 v in
   f_inf x = false /\ f_nan x = false /\
   (fval x == (1 # 4) * (sgnq (fld_s 5 10 v =? 1) * ieee_mag 5 10 0 (fld_m 5 10 v)))%Q.
 Proof.
-  intros E. unfold fmt_hp. destruct fmts_std as (-> & _ & _).
+  intros E. unfold fmt_hp_before_8541cf4. destruct fmts_std as (-> & _ & _).
   destruct (decode_subnormal_scaled 5 10 (-16) 512 ltac:(lia) ltac:(lia) v E ltac:(lia)) as (I1 & N1 & V).
   cbv zeta. split; [exact I1 | split; [exact N1|]]. rewrite V. reflexivity.
 Qed.
-
-Lemma decode_hp_witness :
-  xeqb (xval (FPNum_from_ieee754 fmt_hp 1)) (XFin (1 # 67108864)) = true /\ xeqb (ieee_value 5 10 1) (XFin (1 # 16777216)) = true.
-Proof. vm_compute. split; reflexivity. Qed.
-
-(* with the IEEE exponent -14 in the same place every half pattern is exact (what a repaired helper.py satisfies) *)
-Lemma decode_hp_fixed v : let x := FPNum_from_ieee754 (fmt_hp_with (-14)) v in
-  xeq (xval x) (ieee_value 5 10 v) /\ (f_s x <? 0) = ieee_neg 5 10 v /\ wf x.
-Proof. destruct fmts_std as (-> & _ & _). apply decode_exact; first [lia | left; reflexivity]. Qed.
